@@ -16,7 +16,7 @@ import (
 var LedgerProfiles = map[string]func(Tier) []*explore.Profile{}
 
 // Replayers maps a replay kind to its re-execution routine (other engines register theirs).
-var Replayers = map[string]func(property string, sig string, payload json.RawMessage) int{}
+var Replayers = map[string]func(property string, sig string, payload []byte) int{}
 
 func replayFile(path string) int {
 	b, err := os.ReadFile(path)
@@ -41,7 +41,7 @@ func replayFile(path string) int {
 		return replayHistory(v.Property, v.Clause+"/"+v.Sig, v.Replay)
 	}
 	if r, ok := Replayers[v.Kind]; ok {
-		return r(v.Property, v.Clause+"/"+v.Sig, v.Replay)
+		return r(v.Property, v.Clause+"/"+v.Sig, []byte(v.Replay))
 	}
 	fmt.Printf("unknown replay kind %q\n", v.Kind)
 	return 2
@@ -178,4 +178,18 @@ func replayHistory(property, fullSig string, payload json.RawMessage) int {
 	}
 	fmt.Printf("NOT REPRODUCED property=%s %s\n", property, fullSig)
 	return 0
+}
+
+// replayWanted, when set, makes Finish report whether a violation with this signature recurs
+// instead of writing evidence (replays of enumeration cases re-run the deterministic enumeration).
+var replayWanted string
+
+func rerunCheck(property, sig string) int {
+	f, ok := Registry[property]
+	if !ok {
+		fmt.Printf("no check registered for %s\n", property)
+		return 2
+	}
+	replayWanted = sig
+	return f("quick")
 }
